@@ -5,6 +5,7 @@ import (
 	"context"
 	"google.golang.org/grpc/status"
 	"net/http/httptest"
+	"sync"
 
 	"github.com/julienschmidt/httprouter"
 
@@ -78,9 +79,10 @@ type checkOut struct {
 	SL   string `json:"sl,omitempty"` // k-th SQL statement fails once with SQLite's lock conflict (reported as a serialisation conflict)
 	CA   string `json:"ca,omitempty"` // request context cancelled before the k-th call (k=0: before start)
 	CMs  []int  `json:"cms,omitempty"`
-	CL   []int  `json:"cl,omitempty"` // leaked goroutines after each cancel run
-	CN   []int  `json:"cn,omitempty"` // storage calls of each cancel run
-	FN   []int  `json:"fn,omitempty"` // storage calls of each transient-fault run
+	WMs  int    `json:"wms,omitempty"` // time spent waiting for the goroutines of the cancelled runs to end
+	CL   []int  `json:"cl,omitempty"`  // leaked goroutines after each cancel run
+	CN   []int  `json:"cn,omitempty"`  // storage calls of each cancel run
+	FN   []int  `json:"fn,omitempty"`  // storage calls of each transient-fault run
 	Hang int    `json:"hang,omitempty"`
 	// batch under faults: per failing call k, the codes of all entries
 	BBase string   `json:"bbase,omitempty"`
@@ -533,6 +535,10 @@ func runGroup(t *testing.T, in *checkIn, out *ndWriter, e *checkEnv, gi, wi int,
 				o := checkOut{G: gi, W: wi, Q: qi, D: d, Base: string(base), N: n}
 				var ca []byte
 				for k := 0; k <= n+1; k++ {
+					// the slowness belongs to this run: a straggler that reaches storage call k after the check has
+					// returned (short circuit) must not switch it on for whatever the harness does next
+					var slowMu sync.Mutex
+					returned := false
 					c, cn, el := e.runCheck(t, q, d, func(rs *runState, cancel context.CancelFunc) {
 						if k == 0 {
 							cancel()
@@ -540,14 +546,19 @@ func runGroup(t *testing.T, in *checkIn, out *ndWriter, e *checkEnv, gi, wi int,
 							// from the moment of the cancellation the database is slow for statements that do not carry
 							// the request's context (8 s; see sqlSlow) - unless leaks are already established
 							rs.cancelAt, rs.cancelFn = k, func() {
-								if leaksSeen < 3 {
+								slowMu.Lock()
+								if leaksSeen < 3 && !returned {
 									sqlSlowFor.Store(int64(8 * time.Second))
 								}
+								slowMu.Unlock()
 								cancel()
 							}
 						}
 					})
+					slowMu.Lock()
+					returned = true
 					sqlSlowFor.Store(0)
+					slowMu.Unlock()
 					if c == 'H' {
 						o.Hang++
 					}
@@ -558,7 +569,9 @@ func runGroup(t *testing.T, in *checkIn, out *ndWriter, e *checkEnv, gi, wi int,
 					if leaksSeen >= 3 {
 						lw = 300 * time.Millisecond // leaks are established; do not pay the full grace period again
 					}
+					tw0 := time.Now()
 					l, ls := waitNoKetoGoroutines(lw)
+					o.WMs += int(time.Since(tw0).Milliseconds())
 					if l > 0 {
 						leaksSeen++
 					}
